@@ -12,8 +12,12 @@ TECHNIQUE = ("Coq theorems over hand-written Gallina models of readdir.Readdir, 
 LEVEL_TEXT = ("Theorems for all name lists, counts and msize values: the paged listing (next offset = Offset of the last entry) returns "
               "every entry exactly once in order whenever one entry fits, for the static/compose Readdir and the localfs loop, directly and "
               "through the server's truncation; every page makes progress; an entry's QID/Type equal what Walk and GetAttr report after any "
-              "intervening lookups (any nesting of mounts). Every run re-checks the proofs and compares the models with localfs on "
-              "temporary directories, staticfs, composefs and nested mounts, via File directly and via real client+server.")
+              "intervening lookups (any nesting of mounts), also after a mount's own identity changed since the composefs was built "
+              "(C19_qids_mount_changed; a root answering from QIDs remembered at mount time is refuted: C19_mount_cache_refuted). Every run re-checks the proofs and compares the models with localfs on "
+              "temporary directories, staticfs, composefs and nested mounts, via File directly and via real client+server; composefs "
+              "mounts include files whose QID version/path the harness changes after New and in the middle of scripted "
+              "Readdir/Walk/GetAttr sequences (op OBump), and the property evaluated on a script is: whatever a Readdir listed for a name "
+              "equals what a Walk to it and GetAttr report, in either order, between two identity changes.")
 LEVEL_NOTE = ("Trusted: Coq kernel + vm_compute; hand models Fsx/Readdir.v, LocalDir.v, Paging.v, QidMap.v (tied by the differential cases "
               "and by FsGen expression checks only); the order in which the host returns directory entries (and its stability while "
               "the directory is not modified) is an oracle input; decode(encode(entries)) = entries is C01's.")
@@ -29,6 +33,8 @@ TRUSTED_BASE = [
     "axioms: none (Print Assumptions: closed under the global context for every property theorem)",
     "go2coq ConstGen (maximumLength, QID type constants) and FsGen (source text of the Readdir offset/skip/rewind expressions)",
     "hand-written models Fsx/*.v, tied by harness/fsimpl/localfs/c19_local_test.go, harness/fsimpl/composefs/c19_compose_test.go + Fsx/C19Cases.v",
+    "python case translator props/C19.py:to_case (JSON observation -> c19case term, names/QIDs tabled by position)",
+    "harness twin vh19Mut (a mounted File whose GetAttr/Open QID is a mutable cell) stands for 'the mount's identity changed'",
 ]
 
 SHARD_BYTES = 120_000
@@ -61,6 +67,8 @@ def lst(items):
 
 
 def leaf(l):
+    if l.get("mut"):
+        return "(LMut %s)" % qid(l["q"])
     return "(LStatic %s)" % lst(nm(n) for n in (l.get("names") or [])) if l.get("static") else "LFile"
 
 
@@ -126,9 +134,10 @@ def to_case(o, tb):
         shape = lst("(%s, %s)" % (nm(m["name"]),
                                   "MSub %s" % lst("(%s, %s)" % (nm(s["name"]), leaf(s["leaf"])) for s in (m.get("sub") or []))
                                   if m["issub"] else "MLeaf %s" % leaf(m["leaf"])) for m in o["shape"])
-        ops = lst(("(ORead %s %d %d)" % (lst(nm(p) for p in (p_["path"] or [])), p_["off"], p_["cnt"])) if p_["read"]
+        ops = lst(("(OBump %s %s)" % (nm(p_["name"]), qid(p_["q"]))) if p_.get("bump") else
+                  ("(ORead %s %d %d)" % (lst(nm(p) for p in (p_["path"] or [])), p_["off"], p_["cnt"])) if p_["read"]
                   else ("(OWalk %s %s)" % (lst(nm(p) for p in (p_["path"] or [])), nm(p_["name"]))) for p_ in o["ops"])
-        res = lst("RNoDir" if r["kind"] == "nodir" else
+        res = lst("RNoDir" if r["kind"] == "nodir" else "RBump" if r["kind"] == "bump" else
                   ("(RRead %s)" % lst(ent(e) for e in (r.get("ents") or []))) if r["kind"] == "read" else
                   ("(RWalk %s %s %s)" % (coq_bool(r["ok"]), qid(r["qw"]), qid(r["qg"]))) for r in o["res"])
         return "CQids %s %s %s" % (shape, ops, res)
